@@ -38,6 +38,12 @@ def run(chk, prog):
     N, B = S.N, S.B
     # ---- R1 ------------------------------------------------------------------------------------
     wr_all = [e for e in ev if e.kind == "write" and e.buf == "_bp_padded" and e.what == "std::copy_n"]
+    tr_all = [e for e in ev if e.kind == "write" and e.buf == "_bp_padded" and e.what == "std::transform"]
+    for e in tr_all:
+        chk.fail("R1", A.loc(pad, {"line": e.line}), "the padded train receives transformed values (std::transform into _bp_padded+%s), not the bunch profiles themselves: "
+                 "the wake is then not the convolution of the profiles (any factor must be the constant scaling applied to the result)" % e.lo, "padBunchProfiles:transformed-profiles")
+    if tr_all and not wr_all:
+        wr_all = tr_all
     A.require(len(wr_all) >= 1, "padBunchProfiles: no copy of the profiles into the padded buffer")
     # the read-back (needed below to judge every placement)
     rd = [e for e in ev if e.kind == "read" and e.buf == "_wakepotential_padded"]
